@@ -406,3 +406,143 @@ func Hash12(parts ...interface{}) string {
 	}
 	return hex.EncodeToString(h.Sum(nil)[:6])
 }
+
+// ---- child-process mode ----------------------------------------------------
+//
+// Heavy or crash-prone workloads run in worker processes (re-exec of the same
+// binary). A worker collects into a child Run and exports it; the parent
+// imports the file: counters add up, distinct sets are united, violations are
+// re-issued through the parent's Violation (known-findings matching, printing).
+
+type childViolation struct {
+	Key     string      `json:"key"`
+	What    string      `json:"what"`
+	Witness interface{} `json:"witness"`
+}
+
+type exported struct {
+	Counters   map[string]int64    `json:"counters"`
+	Distinct   map[string][]string `json:"distinct"`
+	Samples    []interface{}       `json:"samples"`
+	Violations []childViolation    `json:"violations"`
+	Inconcl    []string            `json:"inconclusive"`
+}
+
+// NewChildRun creates a Run for a worker process: Violation only records.
+func NewChildRun(prop string) *Run {
+	r := NewRun(prop, "")
+	r.extra["__child"] = true
+	return r
+}
+
+// ChildViolation records a violation in a worker (no printing, no files).
+func (r *Run) ChildViolation(key, what string, witness interface{}) {
+	r.mtx.Lock()
+	defer r.mtx.Unlock()
+	r.violKeys[key]++
+	if r.violKeys[key] > 3 {
+		r.counters["violations_suppressed_in_child"]++
+		return
+	}
+	cv, _ := r.extra["__viol"].([]childViolation)
+	r.extra["__viol"] = append(cv, childViolation{key, what, witness})
+}
+
+// ExportTo writes the worker's observations to path.
+func (r *Run) ExportTo(path string) error {
+	r.mtx.Lock()
+	defer r.mtx.Unlock()
+	e := exported{Counters: r.counters, Distinct: map[string][]string{}, Samples: r.samples, Inconcl: r.inconcl}
+	for k, s := range r.distinct {
+		for v := range s {
+			e.Distinct[k] = append(e.Distinct[k], v)
+		}
+	}
+	e.Violations, _ = r.extra["__viol"].([]childViolation)
+	b, err := json.Marshal(e)
+	if err != nil {
+		return err
+	}
+	return ioutil.WriteFile(path, b, 0644)
+}
+
+// Import merges a worker's export into the parent run.
+func (r *Run) Import(path string) error {
+	b, err := ioutil.ReadFile(path)
+	if err != nil {
+		return err
+	}
+	var e exported
+	if err := json.Unmarshal(b, &e); err != nil {
+		return err
+	}
+	r.mtx.Lock()
+	for k, v := range e.Counters {
+		r.counters[k] += v
+	}
+	for k, vs := range e.Distinct {
+		m := r.distinct[k]
+		if m == nil {
+			m = map[string]struct{}{}
+			r.distinct[k] = m
+		}
+		for _, v := range vs {
+			m[v] = struct{}{}
+		}
+	}
+	for _, s := range e.Samples {
+		if len(r.samples) < r.maxSamples {
+			r.samples = append(r.samples, s)
+		}
+	}
+	r.inconcl = append(r.inconcl, e.Inconcl...)
+	r.mtx.Unlock()
+	for _, v := range e.Violations {
+		r.Violation(v.Key, v.What, v.Witness)
+	}
+	return nil
+}
+
+// RunWorkers re-executes the current binary `workers` times with arguments
+// ("worker", i, workers, outfile) plus extra, each under a wall-clock watchdog
+// (inconclusive when it fires), and imports the results. The worker must call
+// ExportTo(outfile). A worker that dies without exporting is reported through
+// onCrash(i, combined output) — what that means is the check's decision.
+func (r *Run) RunWorkers(workers int, watchdog time.Duration, extra []string, onCrash func(i int, output string)) {
+	self := os.Getenv("VERIF_SELF")
+	if self == "" {
+		self, _ = os.Executable()
+	}
+	dir := Scratch(r.Prop + "-w")
+	defer os.RemoveAll(dir)
+	var wg sync.WaitGroup
+	for i := 0; i < workers; i++ {
+		wg.Add(1)
+		go func(i int) {
+			defer wg.Done()
+			out := filepath.Join(dir, fmt.Sprintf("w%d.json", i))
+			logf := filepath.Join(dir, fmt.Sprintf("w%d.log", i))
+			args := append([]string{"worker", strconv.Itoa(i), strconv.Itoa(workers), out}, extra...)
+			output, timedOut, err := RunCmd(watchdog, logf, nil, self, args...)
+			if timedOut {
+				r.Inconclusive(fmt.Sprintf("worker %d hit the %v watchdog", i, watchdog))
+				return
+			}
+			if ierr := r.Import(out); ierr != nil {
+				if onCrash != nil {
+					onCrash(i, tail(output, 4000))
+				} else {
+					r.Inconclusive(fmt.Sprintf("worker %d produced no result (%v): %s", i, err, tail(output, 300)))
+				}
+			}
+		}(i)
+	}
+	wg.Wait()
+}
+
+func tail(s string, n int) string {
+	if len(s) > n {
+		return s[len(s)-n:]
+	}
+	return s
+}
